@@ -77,6 +77,37 @@ def scores_native(vc):
                and bool(np.allclose(gl, glf, rtol=1e-4, atol=1e-5 * max(1.0, float(np.abs(glf).max())))))
 
 
+@bounded("C11", "large_data_native", native_runs=6)
+def large_data_native(vc):
+    """scores on data sets of a few hundred points with small errors / large values (products of hundreds of Cholesky
+    pivots leave double range; their logarithms do not): value, value-and-gradient variant and an independent
+    slogdet / solve reference agree and are finite"""
+    from inference.gp import GpRegressor, SquaredExponential
+    seed = vc.int("seed", lo=0, hi=10 ** 6)
+    rng = np.random.default_rng(seed)
+    n = vc.choice("n", [150, 300, 500])
+    yscale = vc.choice("y_scale", [1.0, 1e5, 1e-4])
+    err = vc.choice("relative_error", [0.01, 0.3])
+    x = np.sort(rng.uniform(0, 10, size=n))
+    y = yscale * (np.sin(x) + 0.2 * rng.normal(size=n))
+    y_err = np.full(n, err * yscale)
+    theta = np.array([float(np.mean(y)), np.log(yscale), np.log(1.0)])
+    gp = GpRegressor(x, y, y_err=y_err, kernel=SquaredExponential, hyperpars=theta)
+    with np.errstate(all="ignore"):
+        v = float(gp.marginal_likelihood(theta))
+        v2, g2 = gp.marginal_likelihood_gradient(theta)
+        l = float(gp.loo_likelihood(theta))
+        l2, _ = gp.loo_likelihood_gradient(theta)
+    K = gp.cov.build_covariance(theta[gp.cov_slice]) + gp.sig
+    r = y - gp.mean.build_mean(theta[gp.mean_slice])
+    sign, logdet = np.linalg.slogdet(K)
+    want = -0.5 * r @ np.linalg.solve(K, r) - 0.5 * logdet
+    vc.inputs["value"], vc.inputs["expected"] = v, float(want)
+    vc.ensures("marginal_likelihood_finite_and_equal_to_reference", np.isfinite(v) and abs(v - want) <= 1e-6 * max(1.0, abs(want)))
+    vc.ensures("value_and_gradient_variant_agrees", np.isfinite(float(v2)) and abs(float(v2) - v) <= 1e-8 * max(1.0, abs(v)) and bool(np.all(np.isfinite(g2))))
+    vc.ensures("loo_variants_agree_and_are_finite", np.isfinite(l) and abs(float(l2) - l) <= 1e-8 * max(1.0, abs(l)))
+
+
 @bounded("C11", "selection_native", native_runs=10)
 def selection_native(vc):
     """automatic hyper-parameter choice: inside the advertised bounds; multi-start BFGS at least as good as the centre"""
